@@ -115,11 +115,18 @@ func (c ConditionFunction) Evaluate(a interface{}, b interface{}) (bool, error) 
 			// sets are unordered
 			return sliceContains(x, y) && sliceContains(y, x), nil
 		}
+		if x.Kind() == reflect.Map {
+			// a column without entries (a nil map) equals an empty map
+			return mapContains(x, y) && mapContains(y, x), nil
+		}
 		return reflect.DeepEqual(a, b), nil
 	case ConditionNotEqual:
 		if x.Kind() == reflect.Slice {
 			// sets are unordered
 			return !(sliceContains(x, y) && sliceContains(y, x)), nil
+		}
+		if x.Kind() == reflect.Map {
+			return !(mapContains(x, y) && mapContains(y, x)), nil
 		}
 		return !reflect.DeepEqual(a, b), nil
 	case ConditionIncludes:
